@@ -226,7 +226,14 @@ def parse_rvalue(s):
             return ("aggregate", "tuple", None, [parse_operand(x) for x in split_top(inner)])
     if s.startswith("{closure@"):
         e = matching(s, 0)
-        return ("aggregate", "closure", s[:e + 1], [])
+        rest = s[e + 1:].strip()
+        caps = []
+        if rest.startswith("{") and rest.endswith("}"):
+            # captured variables, in field order:  { self: move _9, other: move _10 }
+            for part in split_top(rest[1:-1].strip()):
+                c = find_top(part, ": ")
+                caps.append(parse_operand(part[c + 2:]))
+        return ("aggregate", "closure", s[:e + 1], caps)
     # ADT aggregates: Path { a: x, b: y } | Path(x, y) | Path
     b = find_top(s, " {")
     if b > 0 and s.endswith("}"):
